@@ -19,13 +19,15 @@ from vlib.wk.sched import Coop, HarnessTimeout
 CASE = [0]
 
 
-def make_module(name, kind, log):
+def make_module(name, kind, log, on_import=None):
     m = types.ModuleType(name)
-    if kind in ("mod", "both", "raise"):
+    if kind in ("mod", "both", "raise", "importer"):
         def glue(name=name, kind=kind, m=m):
             log.append((name, "module", id(m)))
             if kind == "raise":
                 raise ValueError("module glue of %s fails" % name)
+            if kind == "importer":
+                on_import(name)      # the glue imports a helper module that carries glue of its own
         m._stackscope_install_glue_ = glue
     return m
 
@@ -50,15 +52,29 @@ def run_history(req):
     bi_pending = set()  # model: names whose built-in glue is registered and neither ran nor was superseded
     obs = []
     known = []
-    stats = {"extracts": 0, "removes": 0, "adds": 0, "f4_hits": 0, "raising_glue_runs": 0, "glue_runs": 0}
+    stats = {"extracts": 0, "removes": 0, "adds": 0, "f4_hits": 0, "raising_glue_runs": 0, "glue_runs": 0,
+             "inserted_by_glue": 0, "extract_after_insertion_by_glue": 0}
     with warnings.catch_warnings():
         warnings.simplefilter("ignore")
         extract(1)   # make sure the cache reflects the current sys.modules
     last_scan_len = len(sys.modules)
 
+    born = []   # modules inserted by a glue function during the extraction in progress
+
+    def on_import(parent):
+        cname = parent + "_helper"
+        if cname in sys.modules:
+            return
+        used.append(cname)
+        c = new_module(cname, "mod")
+        sys.modules[cname] = c
+        present[("helper", cname)] = (cname, c, "mod")
+        born.append((cname, "module", id(c)))
+        stats["inserted_by_glue"] += 1
+
     def new_module(name, kind):
-        m = make_module(name, kind, log)
-        if kind in ("mod", "both", "raise"):
+        m = make_module(name, kind, log, on_import)
+        if kind in ("mod", "both", "raise", "importer"):
             unrun_mod.add(id(m))
         return m
 
@@ -113,6 +129,10 @@ def run_history(req):
                     elif name in bi_pending:
                         expect.append((name, "builtin", 0))
                 fastpath = len(sys.modules) == last_scan_len
+                scan_start_len = len(sys.modules)
+                if any(k[0] == "helper" and id(v[1]) in unrun_mod for k, v in present.items() if isinstance(k, tuple)):
+                    stats["extract_after_insertion_by_glue"] += 1
+                del born[:]
                 before = len(log)
                 with warnings.catch_warnings(record=True) as w:
                     warnings.simplefilter("always")
@@ -124,6 +144,11 @@ def run_history(req):
                 stats["extracts"] += 1
                 got = log[before:]
                 stats["glue_runs"] += len(got)
+                # a module that appeared DURING this extraction may be handled by it or by the next one
+                for key in born:
+                    if key in got:
+                        got.remove(key)
+                        unrun_mod.discard(key[2])
                 if st.error is not None or st.frames:
                     obs.append({"kind": "extract_result", "error": repr(st.error)})
                 skipped = False
@@ -144,7 +169,7 @@ def run_history(req):
                         else:
                             bi_pending.discard(name)
                 if not (fastpath and not got):
-                    last_scan_len = len(sys.modules)
+                    last_scan_len = scan_start_len
                 nwarn = sum(1 for x in w if issubclass(x.category, RuntimeWarning) and "Failed to initialize" in str(x.message))
                 kinds = dict((nm, kd) for (nm, _m, kd) in present.values())
                 nraise = 0
